@@ -114,7 +114,7 @@ NOP_STMTS = [
 
 def _gen_nop(r: random.Random) -> dict:
     pats = r.sample(PATTERNS, r.randint(1, 4))
-    return {"kind": "nop", "patterns": pats, "stmts": [r.choice(NOP_STMTS) for _ in range(r.randint(1, 4))]}
+    return {"kind": "nop", "patterns": pats, "stmts": [r.choice(NOP_STMTS) for _ in range(r.randint(1, 4))], "qmark": r.random() < 0.3}
 
 
 def render(case: dict) -> str:
@@ -257,8 +257,10 @@ def snowflake_cursor() -> Any:
 def _run_nop(case: dict, env: core.Env) -> None:
     pats = case["patterns"]
     fa, fb = core.new_fs(nop_regexes=pats), core.new_fs()
+    qmark = bool(case.get("qmark"))  # the same with server-side (qmark) binding: a no-op'd statement has nothing to bind to
     try:
-        ca, cb = fa.connect("db1", "s1"), fb.connect("db1", "s1")
+        kw = {"paramstyle": "qmark"} if qmark else {}
+        ca, cb = fa.connect("db1", "s1", **kw), fb.connect("db1", "s1", **kw)
         for c in (ca, cb):
             cur = c.cursor()
             cur.execute("CREATE TABLE T1 (ID INT, S VARCHAR)")
@@ -275,6 +277,8 @@ def _run_nop(case: dict, env: core.Env) -> None:
             if "%s" in s:
                 params = (7, "seven") if s.count("%s") == 2 else (7,)
             effective = s % tuple(repr(p) if isinstance(p, str) else p for p in params) if params else s
+            if qmark and params:
+                s = effective = s.replace("%s", "?")
             matches = any(re.match(p, effective, re.IGNORECASE) for p in pats)
             cura, curb = ca.cursor(), cb.cursor()
             if matches:
